@@ -170,6 +170,23 @@ def check_case(case):
         else:
             expect(want is not None, "mismatch:build_cdb_accepted_opcode_without_fixed_length", value=v, length=len(b))
             expect(len(b) == want and b[0] == v, "mismatch:build_cdb_length", value=v, length=len(b), want=want)
+        # ... and through the class-level encoder of classes whose own layout does not describe the opcode
+        # byte (the base class, a caller's subclass that lists only its own fields): the length still follows
+        # the operation code that was asked for
+        class OwnFields(SCSICommand):
+            _cdb_bits = {"flag": [0x01, 1]}
+
+        for cls_ in (SCSICommand, OwnFields):
+            try:
+                b = cls_.marshall_cdb({"opcode": v})
+            except Exception as e:  # noqa
+                expect(want is None and isinstance(e, SCSICommand.OpcodeException),
+                       "mismatch:marshall_cdb_refused_fixed_length_opcode" if want else "exc:%s@marshall_cdb" % type(e).__name__,
+                       value=v, cls=cls_.__name__, error=repr(e)[:160])
+            else:
+                expect(want is not None, "mismatch:marshall_cdb_accepted_opcode_without_fixed_length", value=v,
+                       cls=cls_.__name__, length=len(b))
+                expect(len(b) == want, "mismatch:marshall_cdb_length", value=v, cls=cls_.__name__, length=len(b), want=want)
         return True, ("length_rule",)
     raise common.HarnessError("bad case " + repr(case))
 
